@@ -208,6 +208,9 @@ CONFIG_MATRIX = [
     dict(commit_concurrency=7, warm_up=True, page_cache_size=256, leaf_cache_size=1, page_cache_upper_levels=1, io_workers=3, hashtable_buckets=2048, prepopulate=True),
     dict(commit_concurrency=64, warm_up=True, page_cache_size=2, leaf_cache_size=2, page_cache_upper_levels=2, io_workers=2, hashtable_buckets=64000),
     dict(commit_concurrency=16, warm_up=False, page_cache_size=256, leaf_cache_size=256, page_cache_upper_levels=0, io_workers=3, hashtable_buckets=8192, prepopulate=True),
+    # hash tables barely larger than the number of pages (long probe chains, tombstones on them) with cold page caches
+    dict(commit_concurrency=1, warm_up=False, page_cache_size=1, leaf_cache_size=1, page_cache_upper_levels=0, io_workers=1, hashtable_buckets="tiny"),
+    dict(commit_concurrency=4, warm_up=True, page_cache_size=1, leaf_cache_size=2, page_cache_upper_levels=0, io_workers=2, hashtable_buckets="tiny"),
 ]
 
 
@@ -339,6 +342,30 @@ def overlay_templates(keys):
                    dict(a="Rollback", n=1, res="Ok"),
                    dict(a="Close"), dict(a="Reopen")]
             out.append(beh)
+    return out
+
+
+def cold_templates(keys):
+    """Hand-written legal NomtApi behaviours for the configuration matrix (C13): whole groups are deleted (their merkle
+    pages become tombstones on other pages' probe chains), the store is reopened (cold caches) and the surviving
+    groups are read, proven and updated."""
+    N = {k: "NoCh" for k in keys}
+    out = []
+    for order in (keys, keys[::-1], [keys[1], keys[0], keys[2]]):
+        a, b, c = order
+        beh = []
+        def commit(w):
+            beh.extend([dict(a="Begin", s=1, chain=[], res="Ok"), dict(a="Finish", s=1, f=1, w=dict(N, **w)), dict(a="Commit", f=1, res="Ok")])
+        commit({k: "v1" for k in keys})
+        commit({a: "Nil"})
+        beh += [dict(a="Close"), dict(a="Reopen")]
+        commit({b: "v2"})
+        commit({c: "Nil", a: "v2"})
+        beh += [dict(a="Close"), dict(a="Reopen")]
+        commit({b: "Nil"})
+        beh += [dict(a="Rollback", n=1, res="Ok"), dict(a="Close"), dict(a="Reopen"), dict(a="Begin", s=1, chain=[], res="Ok"),
+                dict(a="DropSession", s=1)]
+        out.append(beh)
     return out
 
 
